@@ -10,6 +10,7 @@ A simulated `kill -9` is "never hand the baton to this thread again": no
 released with the `Killed` BaseException only during teardown, after the
 verdict is final.
 """
+import gc
 import hashlib
 import json
 import os
@@ -185,6 +186,7 @@ class Scheduler(object):
         self.switches = 0           # context switches between two live actors
         self.preempted_mid = 0      # switches away from an actor that was not blocked/done
         self._short = {}
+        self._gc_was_enabled = False
 
     # -- actor management ---------------------------------------------------
     def spawn(self, name, fn, start_at=0, parent=None, kind="proc"):
@@ -314,6 +316,14 @@ class Scheduler(object):
 
     # -- main loop ------------------------------------------------------------
     def run(self):
+        # Cyclic garbage collection is triggered by allocation counts, which
+        # depend on OS-level timing of the baton hand-over (whether a thread
+        # reaches its Event.wait before or after it is set).  A collection
+        # can run a traced __del__, so it must not happen at a time the
+        # simulator does not decide: collect only at teardown.
+        if not self._gc_was_enabled:
+            self._gc_was_enabled = gc.isenabled() or None
+        gc.disable()
         while True:
             live = [a for a in self.actors if a.state == "runnable"]
             runnable = [a for a in live if a.start_at <= self.step]
@@ -347,6 +357,14 @@ class Scheduler(object):
 
     def teardown(self):
         self.tearing_down = True
+        try:
+            self._teardown()
+        finally:
+            gc.collect()
+            if self._gc_was_enabled:
+                gc.enable()
+
+    def _teardown(self):
         for a in self.actors:
             if a.thread.is_alive():
                 if a.state != "done":
